@@ -354,6 +354,42 @@ def grid_net(draw, max_side=12):
     return {"fluid": fluid, "sector": "all", "junction": juncs, "elements": elements, "meta": {"grid": [nx, ny]}}
 
 
+@st.composite
+def two_districts(draw, max_n=7):
+    """A tree net cut into two districts by a closed valve / an out-of-service pipe, each district with its own external
+    grid: switching one grid changes what is supplied without changing any branch or junction."""
+    rec = draw(hyd_net(max_n=max_n, min_n=3, extra_edges=0, allow_parallel=False, allow_ctrl=False, allow_lift=False,
+                       allow_pi=False, max_eg=1, allow_oos=False, labels=False, sectors=False, zero_load_p=0.0))
+    from .recipe import BRANCH_TABLES, FROM_TO
+    br = [e for e in rec["elements"] if e["table"] in BRANCH_TABLES]
+    cut = br[draw(st.integers(0, len(br) - 1))]
+    if cut["table"] == "valve":
+        cut["opened"] = False
+    else:
+        cut["in_service"] = False
+    adj = {}
+    for e in br:
+        if e is cut:
+            continue
+        a, b = FROM_TO[e["table"]]
+        adj.setdefault(e[a], set()).add(e[b])
+        adj.setdefault(e[b], set()).add(e[a])
+    eg = next(e for e in rec["elements"] if e["table"] == "ext_grid")
+    seen, todo = {eg["junction"]}, [eg["junction"]]
+    while todo:
+        for m in adj.get(todo.pop(), ()):
+            if m not in seen:
+                seen.add(m)
+                todo.append(m)
+    other = [j["index"] for j in rec["junction"] if j["index"] not in seen]
+    if other:
+        j2 = other[draw(st.integers(0, len(other) - 1))]
+        rec["elements"].append({"table": "ext_grid", "index": eg["index"] + 1, "junction": j2, "p_bar": eg["p_bar"],
+                                "t_k": eg["t_k"], "type": "pt", "in_service": draw(st.booleans())})
+    rec["meta"] = {"two_districts": True}
+    return rec
+
+
 def fix_pi_order(elements):
     """stable fix-up of a creation order: junction-pipe valves are moved behind their pipe."""
     placed, out, pending = set(), [], []
